@@ -73,11 +73,26 @@ func (f *fakeS3) GetObject(ctx context.Context, bucket, key string) (io.ReadClos
 		return nil, errNoSuchKey
 	}
 	data, ok := f.objects[key]
+	if !ok && ft == "m" {
+		return nil, errInjected
+	}
 	if !ok {
 		return nil, errNoSuchKey
 	}
+	if ft == "m" {
+		// the request succeeds, the body fails mid-stream (connection reset after the first part of the object)
+		cut := len(data) / 2
+		if cut > 32768 {
+			cut = 32768
+		}
+		return io.NopCloser(io.MultiReader(bytes.NewReader(append([]byte(nil), data[:cut]...)), failingReader{})), nil
+	}
 	return io.NopCloser(bytes.NewReader(append([]byte(nil), data...))), nil
 }
+
+type failingReader struct{}
+
+func (failingReader) Read(p []byte) (int, error) { return 0, errInjected }
 
 func (f *fakeS3) PutObject(ctx context.Context, bucket, key string, body io.Reader) error {
 	ft := f.next()
@@ -90,7 +105,7 @@ func (f *fakeS3) PutObject(ctx context.Context, bucket, key string, body io.Read
 	if err != nil {
 		return err
 	}
-	if ft == "f" || ft == "4" {
+	if ft == "f" || ft == "4" || ft == "m" {
 		return errInjected
 	}
 	f.objects[key] = data
@@ -107,7 +122,7 @@ func (f *fakeS3) ObjectExists(ctx context.Context, bucket, key string) (bool, er
 	ft := f.next()
 	f.log = append(f.log, "HEAD "+key+" "+ft)
 	switch ft {
-	case "f", "e":
+	case "f", "e", "m":
 		return false, errInjected
 	case "4":
 		return false, nil
